@@ -170,6 +170,12 @@ class Checker(CommandMixin):
             k = (m.app, m.id)
             rec = self.mb_inc.get(k)
             m0 = pre.mb(*k)
+            if rec is not None and m0 is None:
+                # a record the interrupted command created: who is on it arrived
+                sides = [r.side for r in m.sides]
+                rec["attempted"] = list(sides)
+                rec["admitted"] = sides[:2]
+                continue
             if rec is None or m0 is None:
                 continue
             had = set(r.side for r in m0.sides)
@@ -189,6 +195,11 @@ class Checker(CommandMixin):
             k = (n.app, n.name)
             rec = self.np_inc.get(k)
             n0 = pre.np(*k)
+            if rec is not None and (n0 is None or n0.mailbox != n.mailbox):
+                sides = [r.side for r in n.sides]
+                rec["attempted"] = list(sides)
+                rec["admitted"] = sides[:2]
+                continue
             if rec is None or n0 is None or n0.mailbox != n.mailbox:
                 continue
             had = set(r.side for r in n0.sides)
